@@ -156,7 +156,7 @@ func cmdCheck(args []string) {
 		// the tree does not load/type-check: undecided
 		die(2, "cannot load %s: %v", *repo, err)
 	}
-	cfg := &SolverCfg{QuickMs: 3000, FullMs: 30000, CacheDir: filepath.Join(*vdir, ".cache"), Workers: 16,
+	cfg := &SolverCfg{QuickMs: 3000, FullMs: 60000, CacheDir: filepath.Join(*vdir, ".cache"), Workers: 16,
 		KeepDir: filepath.Join(*vdir, "out", *prop)}
 	if *tier == "thorough" {
 		cfg.FullMs = 120000
